@@ -1,5 +1,9 @@
 # Per-property rows merged into gen_manifest.py's table.
-CHECKS = {}
+CHECKS = {
+ "C06": dict(engine="pipesim", cat="fault_enumeration", ref="§6.2",
+   text="Fault enumeration inside the deterministic simulator: for every stage x capacity x small input x base schedule the fault-free run is re-run with the cancel injected before every scheduler step and with every consumer walking away after every element count (complete for that sub-space), plus seeded random plans mixing cancel (step / virtual time / at quiescence), abandonment, never-closing inputs, stalls and select arbitration. Oracles: no library panic, online prefix of the uncancelled result, closure and goroutine exit after close+drain, and after cancel+close with nobody receiving.",
+   technique="deterministic simulation with fault injection: cancel/abandon swept over every step of seeded schedules of the instrumented real stages; prefix + closure + leak oracles"),
+}
 PLANNED = {
  "C06": "check not built yet (planned: pipesim fault enumeration, DESIGN §6.2)",
  "C07": "check not built yet (planned: pipesim fault enumeration, DESIGN §6.3)",
